@@ -6,7 +6,7 @@ Conventions (doc/source/theory/pQCD.rst): a = alpha/(4 pi), t = ln mu^2,
     da_em/dt = - a_em^2 ( sum_{k<m} beta^(0,2+k) a_em^k + [m>=1] beta^(1,2) a_s )      (alpha_em running)
     da_em/dt = 0                                                                     (alpha_em fixed)
 
-integrated with scipy DOP853 at rtol 1e-12.  The beta *coefficients* are taken from ``eko.beta`` (their values are
+integrated with scipy DOP853 at rtol 1e-13.  The beta *coefficients* are taken from ``eko.beta`` (their values are
 decided by C20); everything else (the differential equation, its truncation, the evaluation points) is written here
 from the documentation, and no coupling code of eko (``eko.couplings``, ``Operator.compute_a``) is used.
 """
@@ -17,7 +17,7 @@ import math
 
 import numpy as np
 
-RTOL = 1e-12
+RTOL = 1e-13
 
 
 def beta_coeffs(order, nf, nl=3, running=False):
